@@ -1,0 +1,20 @@
+//! C08 (a revoked relay connection does not stay connected) verification hooks.
+//!
+//! The pause point `relay.accept.after_admit` sits in `Inner::accept` between the access
+//! check (`authorize_with` -> `on_connect` -> `Allow`) and `Clients::register`.  This
+//! module only adds a read-only view of which connections are registered.
+#![cfg(feature = "server")]
+
+use crate::server::{ConnectionId, clients::Clients};
+
+/// Name of the pause point between admission and registration.
+pub const AFTER_ADMIT: &str = "relay.accept.after_admit";
+
+/// Whether `conn` is currently registered (active or inactive) in `clients`.
+pub fn is_registered(clients: &Clients, conn: ConnectionId) -> bool {
+    let n = super::c06::conn_num(conn);
+    super::c06::snapshot(clients)
+        .0
+        .iter()
+        .any(|(_, a, ina)| *a == n || ina.contains(&n))
+}
